@@ -499,3 +499,172 @@ def correspondence_multi(ctx, res):
                      "classes x 1..3 controls x 2 control values (complete), seeded random sequences of 3..7 two-qubit gates; "
                      "matrices read through propagators(expand=False) and compute_unitary")
     return n
+
+
+# ------------------------------------------------------------------------------------------------------------------
+# controlled gates AFTER expansion on a register: the control value is read in the order the controls are LISTED
+
+def listed_order_semantics(N, controls, targets, v, U):
+    """documented semantics, written from the docstrings only: on N qubits (qubit 0 = most significant digit of the basis
+    index), apply U to `targets` exactly when the control qubits, read in the order they are LISTED with the first one as
+    the most significant bit, spell the number v; identity otherwise"""
+    dim = 2 ** N
+    M = np.zeros((dim, dim), dtype=complex)
+    k = len(targets)
+    for y in range(dim):
+        bits = [(y >> (N - 1 - q)) & 1 for q in range(N)]
+        val = 0
+        for c in controls:
+            val = 2 * val + bits[c]
+        if val != v:
+            M[y, y] = 1
+            continue
+        col = 0
+        for t in targets:
+            col = 2 * col + bits[t]
+        for row in range(2 ** k):
+            nb = list(bits)
+            for i, t in enumerate(targets):
+                nb[t] = (row >> (k - 1 - i)) & 1
+            x = 0
+            for b in nb:
+                x = 2 * x + b
+            M[x, y] = U[row, col]
+    return M
+
+
+def expand_requests(rng, thorough):
+    """every ordered placement of m controls + target(s) on N in {3, 4} qubits (m = 1, 2, 3) x every control value:
+    ControlledGate with every single-qubit target class through get_qobj, with X and R also through
+    propagators(expand=True) / compute_unitary and as controlled_gate(U, …); the named one-control classes, TOFFOLI and
+    FREDKIN on every placement (class and by name)"""
+    from qutip_qip.operations import gateclass
+    singles = [t for t in SINGLE_TARGETS if hasattr(gateclass, t)]
+    for N in (3, 4):
+        for m in (1, 2, 3):
+            if m + 1 > N:
+                continue
+            for qs in itertools.permutations(range(N), m + 1):
+                cs, t = list(qs[:m]), [qs[m]]
+                for v in range(2 ** m):
+                    for T in singles:
+                        vias = ["get_qobj"] + (["propagators", "unitary", "function"] if T in ("X", "R") else [])
+                        for via in vias:
+                            yield {"kind": "expand", "key": "ControlledGate:" + T, "controls": cs, "targets": t, "cv": v, "N": N,
+                                   "arg": doc_arg_shape("SNOT" if T == "H" else T), "via": via}
+        for name, (m, tn) in CONTROLLED.items():
+            nt = 2 if name == "FREDKIN" else 1
+            if m + nt > N or name not in gateclass.GATE_CLASS_MAP:
+                continue
+            for qs in itertools.permutations(range(N), m + nt):
+                for via in ("get_qobj", "propagators", "byname"):
+                    yield {"kind": "expand", "key": name, "controls": list(qs[:m]), "targets": list(qs[m:]), "cv": ABSENT, "N": N,
+                           "arg": doc_arg_shape(name), "via": via}
+
+
+def expanded_of(w):
+    """the operator on the register the implementation gives for the request, through the path `via`"""
+    from qutip_qip.circuit import QubitCircuit
+    from qutip_qip.operations import controlled_gate
+    import qutip
+    N = w["N"]
+    req = {"key": w["key"], "path": "class", "targets": w["targets"], "controls": w["controls"], "arg": w["arg"], "cv": w["cv"]}
+    via = w["via"]
+    if via == "function":
+        tn = w["key"].split(":", 1)[1]
+        U = doc_matrix("SNOT" if tn == "H" else tn, w["arg"])
+        return controlled_gate(qutip.Qobj(U), controls=list(w["controls"]), targets=list(w["targets"]), N=N,
+                               control_value=w["cv"]).full()
+    if via == "get_qobj":
+        return build(req).get_qobj(dims=[2] * N).full()
+    qc = QubitCircuit(N)
+    build(dict(req, path="circuit") if via == "byname" else req, qc)
+    if via == "unitary":
+        return qc.compute_unitary().full()
+    return qc.propagators(expand=True)[0].full()
+
+
+def oracle_expand(w):
+    name = doc_name(w["key"])
+    if w["key"].startswith("ControlledGate:"):
+        tn = w["key"].split(":", 1)[1]
+        tn = "SNOT" if tn == "H" else tn
+        m, v = len(w["controls"]), w["cv"]
+    else:
+        m, tn = CONTROLLED[name]
+        v = 2 ** m - 1 if w["cv"] == ABSENT else w["cv"]
+    U = doc_matrix(tn, w["arg"])
+    exp = listed_order_semantics(w["N"], w["controls"], w["targets"], v, U)
+    req = "%s(controls=%s, targets=%s, control_value=%s) on %d qubits via %s" % (w["key"], w["controls"], w["targets"], w["cv"],
+                                                                                 w["N"], w["via"])
+    try:
+        M = expanded_of(w)
+    except Exception as e:
+        return True, "%s raises %s: %s" % (req, type(e).__name__, str(e)[:100])
+    if M.shape != exp.shape or np.abs(M - exp).max() > 1e-9:
+        bits = format(v, "0%db" % m)
+        return True, ("%s: the operator on the register does not apply %s to qubit(s) %s exactly when the controls %s read %s "
+                      "(listed order, first = most significant)" % (req, tn, w["targets"], w["controls"], bits))
+    return False, "listed-order semantics met"
+
+
+def correspondence_expand(ctx, res, drv):
+    """model (GateCtor.expanded over the regenerated table, `drv_gates ctor … n=N`) vs `get_qobj(dims=[2]*N)` for the classes
+    that read control_value: every ordered placement / value as in `expand_requests`, plus refused placements"""
+    from props.c09 import classify_ctrl_exc
+    from qutip_qip.operations import gateclass
+    singles = [t for t in SINGLE_TARGETS if hasattr(gateclass, t)]
+    reqs = []
+    for w in expand_requests(ctx.rng, ctx.thorough):
+        if w["via"] == "get_qobj" and w["key"].startswith("ControlledGate:"):
+            reqs.append(w)
+    for key in ["CX", "CY", "CS", "CT", "CRX", "CRY", "CRZ"]:
+        if key in gateclass.GATE_CLASS_MAP:
+            for N in (3, 4):
+                for c, t in itertools.permutations(range(N), 2):
+                    reqs.append({"kind": "expand", "key": key, "controls": [c], "targets": [t], "cv": ABSENT, "N": N,
+                                 "arg": doc_arg_shape(key), "via": "get_qobj"})
+    for T in ("X", "RY"):
+        for cs, t, N, v in (([0, 0], [1], 3, 1), ([0, 1], [1], 3, 1), ([0, 3], [1], 3, 1), ([2, 0], [1], 2, 2), ([-1, 0], [1], 3, 1),
+                            ([1, 0], [2], 3, 2), ([0, 1, 2], [3], 3, 5), ([2, 1], [0], 5, 1)):
+            reqs.append({"kind": "expand", "key": "ControlledGate:" + T, "controls": cs, "targets": t, "cv": v, "N": N,
+                         "arg": doc_arg_shape(T), "via": "get_qobj"})
+    lines = ["ctor key=%s path=class ts=%s cs=%s arg=%s cv=%s n=%d" % (w["key"], fmt_q(w["targets"]), fmt_q(w["controls"]),
+                                                                       fmt_a(w["arg"]), fmt_v(w["cv"]), w["N"]) for w in reqs]
+    outs = drv.run(lines)
+    for w, o in zip(reqs, outs):
+        inp = {k: (list(v) if isinstance(v, tuple) else v) for k, v in w.items() if k != "kind"}
+        res.case(inp, nontrivial=True, tags=["expanded-controlled", "N=%d" % w["N"], "m=%d" % len(w["controls"])])
+        f = o.split(" ")
+        try:
+            M = expanded_of(w)
+            impl = None
+        except Exception as e:
+            impl = "xerr " + classify_ctrl_exc(e)
+        tn = w["key"].split(":", 1)[1] if ":" in w["key"] else CONTROLLED[w["key"]][1]
+        U = doc_matrix("SNOT" if tn == "H" else tn, w["arg"])
+        bad = None
+        if not o.startswith("ok ") or len(f) < 6:
+            bad = (o[:80], impl or "matrix")
+        elif f[4] == "xerr":
+            if impl != "xerr " + f[5]:
+                bad = (" ".join(f[4:]), impl or "matrix")
+        elif f[4] == "block":
+            if impl is not None:
+                bad = ("block", impl)
+            else:
+                val = {"z": 0, "o": 1, "a": U[0, 0], "b": U[0, 1], "c": U[1, 0], "d": U[1, 1]}
+                E = np.array([[val[ch] for ch in r] for r in f[6].split(";")], dtype=complex)
+                if E.shape != M.shape or np.abs(E - M).max() > 1e-12:
+                    bad = ("block %s" % f[5], np.round(M, 3).tolist())
+        else:
+            bad = (" ".join(f[4:])[:60], impl or "matrix")
+        if bad:
+            wellformed = len(set(w["controls"] + w["targets"])) == len(w["controls"]) + 1 and \
+                all(0 <= q < w["N"] for q in w["controls"] + w["targets"])
+            res.disagree(inp, bad[0], bad[1], "model of get_qobj of a controlled object (GateCtor.expanded) vs implementation",
+                         dict(w) if wellformed else None)
+    res.notes.append("expanded controlled gates: ControlledGate x 12 target classes x every ordered placement of 1..3 controls + target "
+                     "on 3 and 4 qubits x every control value, CX…CRZ on every ordered pair, refused placements — get_qobj vs the "
+                     "model (complete over this grid)")
+    return len(reqs)
